@@ -38,7 +38,7 @@ def with_want(scens, want):
 
 
 def fam_general(rng, tier):
-    return (gen.fam_boundaries(rng) + gen.fam_fixed(rng, n(tier, 60, 400)) + gen.fam_fixed_counts(rng, tier) + gen.fam_stream(rng, n(tier, 150, 1500)) + gen.fam_garbage(rng, n(tier, 80, 600)) +
+    return (fam_ss(rng, tier) + gen.fam_sizes(rng, tier) + gen.fam_boundaries(rng) + gen.fam_fixed(rng, n(tier, 60, 400)) + gen.fam_fixed_counts(rng, tier) + gen.fam_stream(rng, n(tier, 150, 1500)) + gen.fam_garbage(rng, n(tier, 80, 600)) +
             gen.fam_orphan(rng, n(tier, 60, 500)) + gen.fam_allowed_mix(rng, n(tier, 80, 600)))
 
 
@@ -47,27 +47,33 @@ def fam_fixed_all(rng, tier):
         gen.fam_stream(rng, n(tier, 40, 300), versions=(5, 7))
 
 
+def fam_ss(rng, tier, protos=(9, 10), want=None):
+    """bounded-exhaustive small histories (gen.fam_smallscope): a seeded sample in the quick tier, ALL sequences of length <= 3 in the thorough tier"""
+    kw = {} if want is None else {"want": want}
+    return gen.fam_smallscope(rng, n(tier, 350, 0), protos=protos, exhaustive=(tier == "thorough"), **kw)
+
+
 def fam_v9(rng, tier):
-    return gen.fam_boundaries(rng) + gen.fam_stream(rng, n(tier, 200, 2000), versions=(9,), calls=(1, 5)) + gen.fam_redefine(rng, n(tier, 40, 300)) + \
+    return fam_ss(rng, tier, (9,)) + gen.fam_sizes(rng, tier) + gen.fam_boundaries(rng) + gen.fam_stream(rng, n(tier, 200, 2000), versions=(9,), calls=(1, 5)) + gen.fam_redefine(rng, n(tier, 40, 300)) + \
         gen.fam_stream(rng, n(tier, 200, 2000), versions=(9,), calls=(1, 5), lossless=True) + \
         gen.fam_stream(rng, n(tier, 100, 800), versions=(9,), calls=(1, 4), lossless=True, wild=True) + \
         gen.fam_widths(rng, 9, sample=n(tier, 120, None)) + gen.fam_all_fields(rng, 9) + gen.fam_proto_values(rng, 9)
 
 
 def fam_ipfix(rng, tier):
-    return gen.fam_boundaries(rng) + gen.fam_stream(rng, n(tier, 200, 2000), versions=(10,), calls=(1, 5)) + gen.fam_redefine(rng, n(tier, 40, 300)) + \
+    return fam_ss(rng, tier, (10,)) + gen.fam_sizes(rng, tier) + gen.fam_boundaries(rng) + gen.fam_stream(rng, n(tier, 200, 2000), versions=(10,), calls=(1, 5)) + gen.fam_redefine(rng, n(tier, 40, 300)) + \
         gen.fam_stream(rng, n(tier, 300, 3000), versions=(10,), calls=(1, 5), lossless=True, simple_ipfix=True) + \
         gen.fam_stream(rng, n(tier, 100, 800), versions=(10,), calls=(1, 4), lossless=True, simple_ipfix=True, wild=True) + \
         gen.fam_widths(rng, 10, sample=n(tier, 150, None)) + gen.fam_all_fields(rng, 10) + gen.fam_proto_values(rng, 10) + gen.fam_rejected_template(rng, n(tier, 40, 300), want=["export"])
 
 
 def fam_cache(rng, tier):
-    return gen.fam_boundaries(rng) + gen.fam_isolation(rng, n(tier, 60, 500)) + gen.fam_rejected_template(rng, n(tier, 60, 400)) + gen.fam_template_noise(rng, n(tier, 60, 400)) + gen.fam_redefine(rng, n(tier, 80, 600), lossless=True) + \
+    return fam_ss(rng, tier) + gen.fam_boundaries(rng) + gen.fam_isolation(rng, n(tier, 60, 500)) + gen.fam_rejected_template(rng, n(tier, 60, 400)) + gen.fam_template_noise(rng, n(tier, 60, 400)) + gen.fam_redefine(rng, n(tier, 80, 600), lossless=True) + \
         gen.fam_stream(rng, n(tier, 100, 800), simple_ipfix=True, lossless=True)
 
 
 def fam_c07(rng, tier):
-    return gen.fam_boundaries(rng) + gen.fam_unknown_template(rng, n(tier, 150, 1500))
+    return fam_ss(rng, tier) + gen.fam_boundaries(rng) + gen.fam_unknown_template(rng, n(tier, 150, 1500))
 
 
 def fam_c11(rng, tier):
@@ -75,7 +81,7 @@ def fam_c11(rng, tier):
 
 
 def fam_c12(rng, tier):
-    return gen.fam_filter(rng, n(tier, 250, 2500))
+    return gen.fam_filter_sweep(rng) + gen.fam_filter(rng, n(tier, 250, 2500))
 
 
 def fam_c14(rng, tier):
@@ -85,7 +91,7 @@ def fam_c14(rng, tier):
 
 
 def fam_c13(rng, tier):
-    return gen.fam_common(rng, n(tier, 150, 1500)) + gen.fam_fixed(rng, n(tier, 40, 300)) + gen.fam_fixed_protocols(rng)
+    return fam_ss(rng, tier) + gen.fam_common(rng, n(tier, 150, 1500)) + gen.fam_fixed(rng, n(tier, 40, 300)) + gen.fam_fixed_protocols(rng)
 
 
 STREAM_RULE = "conformant multi-call histories from the RFC-level generator (templates drawn from the library's type tables plus unknown types, supported widths, enterprise / variable-length / zero-length fields, 1-3 template records per set, options templates, paddings), encoded by the Lean specification writer Spec.enc"
@@ -123,11 +129,11 @@ PROPS = {
             "mutate_per": {"quick": 1, "thorough": 3},
             "rule": "heap bytes requested from a counting global allocator during parse_bytes (measured in the harness) against A*|buf| + B*size(result) + C with A=64, B=16, C=128 KiB, and size(result) against D*(|buf| + wire size of cached templates) + E with D=256, E=1 KiB (sizes defined in lean/NetflowModel/Cost.lean); growth oracle (assert_scale): the same input shape at size n and 4n on twin parsers, allocation and result size may grow at most 6x (+64 KiB) — templates per flowset, template sets, redefinitions, records, data sets, fields per template, V5/V7 records — and the same small message against caches of size n and 8n must cost the same; extremal families: headers announcing 65535 records/fields over short bodies, buffers packed with minimal packets, maximal record counts, templates with many (zero-length) fields"},
     "C16": {"oracle": "C16", "view": ["outcome", "pkts"],
-            "families": lambda rng, tier: gen.fam_json(rng, n(tier, 200, 2000)) + gen.fam_garbage(rng, n(tier, 60, 400)) + gen.fam_fixed(rng, n(tier, 30, 200)),
+            "families": lambda rng, tier: fam_ss(rng, tier) + gen.fam_sizes(rng, tier) + gen.fam_json(rng, n(tier, 200, 2000)) + gen.fam_garbage(rng, n(tier, 60, 400)) + gen.fam_fixed(rng, n(tier, 30, 200)),
             "mutate_per": {"quick": 1, "thorough": 2},
             "rule": "results of every kind (all four versions, templates, options, data with every value kind incl. 128-bit counters, NaN/infinite floats, non-UTF-8 strings, zero-length values, error elements with arbitrary remaining bytes); serde_json text produced twice by the harness and by a twin parser fed the same history, read back with Lean's JSON parser and compared with the model's serialisation tree toJ of the decoded value"},
     "C17": {"oracle": "C17", "view": ["outcome", "pkts", "state", "exports", "common"], "two_builds": True,
-            "families": lambda rng, tier: gen.fam_stream(rng, n(tier, 250, 2500), versions=(9, 10), calls=(1, 4)) +
+            "families": lambda rng, tier: fam_ss(rng, tier) + gen.fam_stream(rng, n(tier, 250, 2500), versions=(9, 10), calls=(1, 4)) +
             gen.fam_stream(rng, n(tier, 150, 1500), versions=(9, 10), calls=(1, 4), lossless=True, simple_ipfix=True) + gen.fam_fixed(rng, n(tier, 20, 100)),
             "rule": "both feature configurations (two harness builds against the working tree) on conformant V9/IPFIX histories with known-only templates and with templates containing fields the library has no type for"},
     "C14": {"oracle": "C14", "view": ["outcome", "pkts", "state"], "families": fam_c14,
